@@ -51,6 +51,7 @@ func init() {
 }
 
 func init() {
+	harnesses["tools"] = &Harness{Name: "tools", Pkg: "verifrt/h/htools", Rewrites: []Rewrite{{Dir: "tools", VRange: true}}}
 	harnesses["mdb"] = &Harness{Name: "mdb", Pkg: "cmd/mdb", InPkgSrc: "harness/inpkg/mdb",
 		Rewrites: []Rewrite{{Dir: "cmd/mdb", VRange: true}}}
 	harnesses["corec"] = &Harness{Name: "corec", Pkg: "verifrt/h/hcorec", Race: true,
@@ -78,6 +79,12 @@ func init() {
 }
 
 var checks = map[string]*Check{
+	"C19": {ID: "C19", Parts: []Part{{Harness: "tools", Func: "C19"}}, Category: "exploration", QuickDeadline: 240, ThoroughDeadline: 1500,
+		Engine: "E1", DesignRef: "6/C19",
+		Technique: "bounded-exhaustive enumeration of (session, output stream) pairs on the real Session.Run driving a scripted subprocess, against a reference of the pass conditions (soundness direction)",
+		LevelText: "Every session over a small vocabulary of expected / inverted / guarded outputs and every short stream of emitted lines (with repetitions and noise) is run through the real tool against a subprocess that prints the stream; whenever the tool passes, the reference pass conditions must hold.",
+		LevelNote: "Trusted: the reference pass conditions; cases expected to fail use a short timeout, which can only turn a pass into a fail. Only the false-pass direction is claimed.",
+		Assumptions: commonAssumptions},
 	"C15": {ID: "C15", Parts: []Part{{Harness: "sio", Func: "C15"}}, Category: "model_checking", QuickDeadline: 240, ThoroughDeadline: 1500,
 		Engine: "E1", DesignRef: "6/C15",
 		Technique: "explicit-state breadth-first search over crew-operation histories on the real sio.Crew (successor = replay on a fresh crew; states deduplicated by a canonical key) with a shadow-store invariant in every state and a reboot differential on continuations",
